@@ -40,7 +40,7 @@ def run_p(items, repo):
             if spec.pure and spec.note.startswith('ASSUMED'): continue
             jobs.append((modname, q, repo))
     if not jobs: return []
-    with multiprocessing.Pool(min(14, len(jobs))) as pool:
+    with multiprocessing.Pool(min(14, len(jobs)), maxtasksperchild=1) as pool:          # one fresh process per function: obligations do not depend on what ran before
         return pool.map(p_worker, jobs, chunksize=1)
 
 
